@@ -15,6 +15,18 @@ import time
 import traceback
 from collections import Counter, defaultdict
 
+# deeply nested (generated) programs produce deeply nested dumps: the orchestrator's own JSON decoding and tree walks
+# must not be what gives up first
+sys.setrecursionlimit(max(sys.getrecursionlimit(), 30000))
+try:
+    import resource as _resource
+    _soft, _hard = _resource.getrlimit(_resource.RLIMIT_STACK)
+    _want = 1 << 30
+    if _soft != _resource.RLIM_INFINITY and _soft < _want:
+        _resource.setrlimit(_resource.RLIMIT_STACK, (_want if _hard == _resource.RLIM_INFINITY else min(_want, _hard), _hard))
+except (ImportError, ValueError, OSError):
+    pass
+
 ROOT = os.path.dirname(os.path.dirname(os.path.abspath(__file__)))
 REPO = os.environ.get("VERIF_REPO", "/repo")
 BUILD = os.path.join(ROOT, "build")
